@@ -11,14 +11,18 @@ Deterministic pre-emption, all from the harness (nothing in /repo is edited):
   * `registry.adapters.registered` is wrapped: a whole registration (add_view + commit, including the cache
     clear) is injected before the j-th `registered` call of an in-progress `_find_views`;
   * the cache dict is an instrumented dict subclass (installed behind `_clear_view_lookup_cache`, keeping
-    whatever object the real method produced): injection right after the reference was read (at `cache.get`)
-    and, with `registry._lock` held, right before `cache[key] = views`;
+    whatever object the real method produced): injection right after the reference was read (at `cache.get`);
+  * `registry._lock` is wrapped in an instrumented lock: the 'write' injection point is the moment BEFORE the
+    lock is acquired for `cache[key] = views` (if the write happens without the lock, the point is the dict
+    write itself).  Nothing is ever injected while the lock is held — a registrar that takes the lock would
+    simply wait there, so that is not an interleaving.  Acquiring the lock while it is held (same thread, or
+    3 s timeout) and any case running longer than 60 s are reported as outcome 'deadlock'/'hang', never a hang;
   * `registry.adapters.register/unregister` are wrapped to LOG the adapter mutations of every registration
     (they are the registrar's `mods` in the model) and to pre-empt the registrar after its m-th mutation with a
     whole request ("split").
 `pyramid.view._find_views` is wrapped read-only to record (arguments, returned list, dict afterwards) per call.
 """
-import itertools, json, sys, threading, time
+import itertools, json, signal, sys, threading, time
 
 from zope.interface import Interface
 
@@ -142,6 +146,7 @@ def fresh_response(regs, q):
         if len(_FRESH) > 200000:
             _FRESH.clear()
         app = make_config(regs).make_wsgi_app()
+        app.registry._lock = ILock(app.registry._lock, None)        # watchdog only: a self-deadlock becomes an outcome
         r = _FRESH[key] = send(app, q)
     return r
 
@@ -173,6 +178,49 @@ def _w_find_views(registry, request_iface, context_iface, view_name, view_types=
     return res
 
 
+class HarnessDeadlock(Exception):
+    """the code under test tried to take registry._lock while it was held (it would wait forever)"""
+
+
+class CaseTimeout(BaseException):
+    """a case did not finish within the watchdog time"""
+
+
+class ILock:
+    """registry._lock with the 'write' injection point in front of the acquire and a deadlock watchdog"""
+
+    def __init__(self, real, live):
+        self.real, self.live, self.holder = real, live, None
+
+    def held_by_me(self):
+        return self.holder == threading.get_ident()
+
+    def acquire(self, blocking=True, timeout=-1):
+        if self.live is not None:
+            self.live.on_point('write')
+        if self.held_by_me() or not self.real.acquire(True, 3.0):
+            if self.live is not None:
+                self.live.deadlock = True
+            raise HarnessDeadlock('registry._lock is requested while it is held')
+        self.holder = threading.get_ident()
+        return True
+
+    def release(self):
+        self.holder = None
+        self.real.release()
+
+    def locked(self):
+        return self.real.locked()
+
+    def __enter__(self):
+        self.acquire()
+        return self
+
+    def __exit__(self, *a):
+        self.release()
+        return False
+
+
 class IDict(dict):
     live = None
 
@@ -182,8 +230,8 @@ class IDict(dict):
         return dict.get(self, k, d)
 
     def __setitem__(self, k, v):
-        if self.live is not None:
-            self.live.on_point('write')
+        if self.live is not None and not self.live.ilock.held_by_me():
+            self.live.on_point('write')             # a write without the lock: the point is the write itself
         dict.__setitem__(self, k, v)
 
 
@@ -204,6 +252,9 @@ class Live:
         d = IDict(reg._view_lookup_cache)
         d.live = self
         reg._view_lookup_cache = d
+        self.deadlock = False
+        self.ilock = ILock(reg._lock, self)
+        reg._lock = self.ilock
         _LIVE[id(reg)] = self
         pview._find_views = _w_find_views
 
@@ -240,15 +291,20 @@ class Live:
         return self.o_registered(required, provided, name)
 
     def fire(self):
+        if self.ilock.held_by_me():
+            return                               # never pre-empt inside the critical section
         a, self.armed = self.armed, None
         n0 = len(self.modlog)
         self.in_injection = True
         try:
             apply_reg(self.config, a['reg'])
+        except Exception:
+            if not self.deadlock:
+                raise
         finally:
             self.in_injection = False
         self.applied.append(a['reg'])
-        self.cur_call['inject'] = {'at': a['at'], 'mods': self.modlog[n0:]}
+        self.cur_call['inject'] = {'at': a['at'], 'mods': self.modlog[n0:], 'deadlock': self.deadlock}
 
     # -- registrations
     def _mutation(self, required, provided, name, value, do):
@@ -266,6 +322,8 @@ class Live:
         return r
 
     def _run_split(self, sp):
+        if self.ilock.held_by_me():
+            return
         sp['fired'] = True
         sp['at_mod'] = len(self.modlog) - sp['n0']
         n0 = len(self.calls)
@@ -315,8 +373,47 @@ def run_impl(case):
     trace, viol = [], []
     try:
         for i, op in enumerate(case['ops']):
+            if live.deadlock:
+                break
             kind = op['op']
             before_regs = list(live.applied)
+            try:
+                _run_op(live, i, op, kind, before_regs, trace, viol)
+            except Exception:
+                if not live.deadlock:
+                    raise
+            if live.deadlock:
+                viol.append({'at': i, 'kind': 'deadlock', 'impl': 'registry._lock requested while it is held', 'expected': 'the operation completes',
+                             'detail': 'op %d never completes (a lookup or a registration concurrent with a lookup waits forever): registry._lock is requested while it is held' % i})
+    finally:
+        live.close()
+    for v in viol:
+        if v['kind'] in ('response', 'split-response'):
+            st = stale_entries(live, trace)
+            if st:
+                v['detail'] += '; the current cache dict holds entries that differ from a cold scan of the current registrations (view names %r)' % (st,)
+            break
+    return trace, viol, live
+
+
+def stale_entries(live, trace):
+    """view names whose entry in the CURRENT cache dict is not the cold scan of the current registrations"""
+    seen, out = {}, []
+    for t in trace:
+        for c in t.get('calls', []):
+            seen[c['key']] = c['q']
+    cache = live.reg._view_lookup_cache
+    for key, q in seen.items():
+        if key in cache:
+            cold = [v for v in (live.o_registered(s[0], s[1], s[2]) for s in slots_of(q)) if v is not None]
+            if [id(x) for x in cache[key]] != [id(x) for x in cold]:
+                out.append(q[3])
+    return sorted(set(out))
+
+
+def _run_op(live, i, op, kind, before_regs, trace, viol):
+    if True:
+        if True:
             if kind == 'get':
                 resp, calls, fired = live.do_get(op['req'], op.get('inject'))
                 ok = [fresh_response(before_regs, op['req'])]
@@ -359,9 +456,6 @@ def run_impl(case):
                                  'detail': 'op %d: len(registry._view_lookup_cache) over %d distinct missing URLs: %r' % (i, op['n'], sizes)})
             else:
                 raise ValueError('bad op %r' % (op,))
-    finally:
-        live.close()
-    return trace, viol, live
 
 
 def collisions(trace):
@@ -489,8 +583,27 @@ def compare(mout, exp):
     return None
 
 
+def _alarm(signum, frame):
+    raise CaseTimeout()
+
+
 def check_case(case, ctx, want_model=True):
-    trace, viol, live = run_impl(case)
+    main = threading.current_thread() is threading.main_thread()
+    if main:
+        old = signal.signal(signal.SIGALRM, _alarm)
+        signal.setitimer(signal.ITIMER_REAL, 30.0)
+    try:
+        trace, viol, live = run_impl(case)
+    except CaseTimeout:
+        _LIVE.clear()
+        pview._find_views = _orig_find_views
+        v = [{'case': case, 'impl': 'no result after 30 s', 'expected': 'the operation sequence completes', 'kind': 'hang', 'at': -1,
+              'detail': 'the operation sequence hangs (a registration concurrent with a lookup never completes)'}]
+        return v, {'trace': [], 'mcase': {'queries': [], 'regs': [], 'ops': []}, 'exp': [], 'problems': []}
+    finally:
+        if main:
+            signal.setitimer(signal.ITIMER_REAL, 0)
+            signal.signal(signal.SIGALRM, old)
     viol = classify(case, trace, viol)
     mcase, exp, problems = to_model(trace, live)
     info = {'trace': trace, 'mcase': mcase, 'exp': exp, 'problems': problems}
@@ -668,10 +781,14 @@ def mixed_kind(m):
 def run_cases(ctx, cases, dist, want_samples=0):
     mism, viol, agree, nontriv, seen = [], [], 0, set(), set()
     infos = []
-    for case in cases:
+    for n, case in enumerate(cases):
         v, info = check_case(case, ctx)
         infos.append(info)
         viol += v
+        if any(w['kind'] == 'hang' for w in v):
+            cases = cases[:n + 1]                   # every further case would wait for the watchdog too
+            dist['stopped_after_hang'] = True
+            break
         for p in info['problems']:
             mism.append({'case': case, 'impl': p, 'model': 'harness-side cross-check'})
     model = ctx.run_model([i['mcase'] for i in infos]) if ctx.driver_path else [None] * len(cases)
@@ -702,6 +819,8 @@ def run_cases(ctx, cases, dist, want_samples=0):
 
 def shrink_violation(v, ctx):
     fid = v.get('finding')
+    if v.get('kind') == 'hang':
+        return v                                    # every probe would cost a watchdog period
 
     def still(c):
         try:
@@ -754,6 +873,10 @@ def run(ctx):
             break
         m, v, a, nt, ds = run_cases(ctx, cases[i:i + CH], dist)
         mism += m; viol += v; agree += a; nontriv += nt; distinct += ds
+        if dist.get('stopped_after_hang'):
+            notes.append('stopped after a case that hangs')
+            exhaustive = False
+            break
     # shrink one representative per class
     by = {}
     for v in viol:
@@ -798,8 +921,21 @@ def soak(ctx, seconds=30, threads=16):
     while lookups on other threads re-subscribe to it), which leaves that application half-registered"""
     t_end = time.time() + seconds
     agg, viol, k = {}, [], 0
+    main = threading.current_thread() is threading.main_thread()
     while time.time() < t_end - 3:
-        r = _soak_round(ctx, min(10.0, t_end - time.time()), threads, k)
+        if main:
+            old = signal.signal(signal.SIGALRM, _alarm)
+            signal.setitimer(signal.ITIMER_REAL, 120.0)
+        try:
+            r = _soak_round(ctx, min(10.0, t_end - time.time()), threads, k)
+        except CaseTimeout:
+            viol.append({'case': {'soak': True}, 'impl': 'no progress for 120 s', 'expected': 'the round completes', 'kind': 'hang',
+                         'detail': 'free-running soak: registrar and lookup threads stopped making progress (deadlock)'})
+            break
+        finally:
+            if main:
+                signal.setitimer(signal.ITIMER_REAL, 0)
+                signal.signal(signal.SIGALRM, old)
         k += 1
         viol += r['violations']
         for key, v in r['summary'].items():
@@ -929,7 +1065,7 @@ def search(ctx):
         unknown = [v for v in vs if not v.get('finding')]
         if unknown:
             viol.append(shrink_violation(unknown[0], ctx))
-            if len(viol) >= 2:
+            if len(viol) >= 2 or unknown[0].get('kind') == 'hang':
                 exhaustive = False
                 break
         if ctx.time_left() < 60:
